@@ -60,6 +60,7 @@ def write_evidence(pid, tier, seed, records, extra_records, wall, violations, in
         "instances_held": len([r for r in records + extra_records if r["verdict"] == "held"]),
         "instances_expected_failure": len([r for r in records if r["verdict"] == "expected-failure"]),
         "instances_inconclusive": [r["instance"] for r in records + extra_records if r["verdict"] == "inconclusive"],
+        "instances_not_explored": [r["instance"] for r in records + extra_records if r["verdict"] == "not-explored"],
         "instances_violated": [r["instance"] for r in records + extra_records if r["verdict"] == "violated"],
         "cbmc_checks": sum(r.get("checks", 0) for r in records),
         "cbmc_checks_failed": sum(r.get("checks_failed", 0) for r in records if r["verdict"] == "violated"),
@@ -176,7 +177,7 @@ def run_property(pid, tier, seed, jobs, harnesses, known, gen_info, only=None, s
         return 2
     kani_wall = results.pop("__wall__", 0.0)
 
-    records, violations, inconclusive, known_lines = [], [], [], []
+    records, violations, inconclusive, known_lines, unexplored = [], [], [], [], []
     known_by_id = {k["id"]: k for k in known}
     native_built = False
     exit_code = 0
@@ -255,8 +256,15 @@ def run_property(pid, tier, seed, jobs, harnesses, known, gen_info, only=None, s
                 inconclusive.append(h.name)
                 print("  %s: solver counterexample does NOT reproduce natively: %s" % (h.name, rec["reason"]))
         else:
-            rec["verdict"] = "inconclusive"
-            inconclusive.append(h.name)
+            reason = r.get("reason", "")
+            if tier != "quick" and ("timeout" in reason or "out_of_memory" in reason):
+                # thorough tier: an instance the solver did not finish within its budget was not
+                # explored; it is listed as such (never counted as held) and does not decide the verdict
+                rec["verdict"] = "not-explored"
+                unexplored.append(h.name)
+            else:
+                rec["verdict"] = "inconclusive"
+                inconclusive.append(h.name)
         records.append(rec)
 
     extra_records = []
@@ -273,14 +281,17 @@ def run_property(pid, tier, seed, jobs, harnesses, known, gen_info, only=None, s
     path = write_evidence(pid, tier, seed, records, extra_records, wall, len(violations), inconclusive,
                           known_lines, gen_info)
     held = len([r for r in records + extra_records if r["verdict"] == "held"])
-    print("[%s] held=%d expected-failures=%d violated=%d inconclusive=%d wall=%.0fs (kani %.0fs) evidence=%s" % (
+    print("[%s] held=%d expected-failures=%d violated=%d inconclusive=%d not-explored=%d wall=%.0fs (kani %.0fs) evidence=%s" % (
         pid, held, len([r for r in records if r["verdict"] == "expected-failure"]), len(violations),
-        len(inconclusive), wall, kani_wall, path))
+        len(inconclusive), len(unexplored), wall, kani_wall, path))
     for r in records + extra_records:
         if r["verdict"] == "inconclusive":
             print("  INCONCLUSIVE %s: %s" % (r["instance"], r.get("reason", "")))
+    if unexplored:
+        print("  NOT EXPLORED (solver budget exhausted, not counted as held): %d instance(s): %s" % (
+            len(unexplored), ", ".join(unexplored[:12]) + (" ..." if len(unexplored) > 12 else "")))
     if violations:
         return 1
-    if inconclusive:
+    if inconclusive or held == 0:
         return 2
     return 0
